@@ -277,6 +277,9 @@ class VecFold(Fold):
         return False if call.get("k") == "mcall" and (call.get("callee") or "").split("::")[-1] in PURE_METHODS else True
 
     def apply_lambda(self, lam, argvals, env):
+        if lam.get("k") == "ref" and lam.get("decl") in env:
+            # a lambda kept in a local (`auto normalise = [norm](double w) {...}`)
+            lam = getattr(self, "lambdas", {}).get(str(env[lam["decl"]])) or lam
         if lam.get("k") != "lambda" or len(lam.get("params", [])) != len(argvals) or lam.get("body") is None:
             return None
         rets = [x for x in walk(lam["body"]) if x.get("k") == "return"]
@@ -285,6 +288,8 @@ class VecFold(Fold):
         if len(rets) != 1 or len(stmts_) != 1 or stmts_[0] is not rets[0]:
             return None
         e2 = env.copy()
+        for dcl_, val_ in getattr(self, "lambda_snap", {}).get("lambda@%s" % lam.get("id"), {}).items():
+            e2[dcl_] = val_                # by-value captures: the value at creation
         for p, v in zip(lam["params"], argvals):
             e2[p["decl"]] = v
         v = self.ev(rets[0]["value"], e2)
